@@ -101,7 +101,8 @@ Qed.
 (* dividing keys: divide_keys never trips an assert and returns a key in [lhs, rhs) *)
 Theorem C10_divide_keys_between : forall kl tl kr tr, bytes_ok kr -> kref_cmp kl tl kr tr = Lt ->
   exists d dt, divide_keys kl tl kr tr = Ok (d, dt) /\
-               kref_cmp kl tl d dt <> Gt /\ kref_cmp d dt kr tr = Lt /\ (length d <= length kl)%nat.
+               kref_cmp kl tl d dt <> Gt /\ kref_cmp d dt kr tr = Lt /\ (length d <= length kl)%nat /\
+               (dt = tl \/ dt = 0%N).
 Proof. exact divide_keys_between. Qed.
 
 (* builders reject out-of-order or oversize input (or any input once the table is full) with the
@@ -130,43 +131,33 @@ Proof.
   exists f. split; [exact E|]. split; [exact Hne|]. exact (bloom_no_false_negative hashes bits f E).
 Qed.
 
-(* the u32 assert of BlockBuilder::append is unreachable unless a record is absurdly large *)
-Theorem C10_block_builder_no_panic : forall enc_size,
-  (forall be, (enc_size be <= U32_MAX - TABLE_FULL_SIZE)%N) ->
-  forall b e, bb_add enc_size b e <> Err EPanic.
+(* the u32 assert of BlockBuilder::append is unreachable: `size_bounded` says that the records a
+   builder makes from entries that passed its checks stay below 4 GiB - 1 GiB (real ones: < 50 KiB) *)
+Theorem C10_block_builder_no_panic : forall enc_size, size_bounded enc_size ->
+  forall b e, (e_ts e <= U64_MAX)%N -> bb_add enc_size b e <> Err EPanic.
 Proof. intros enc_size Hb. exact (bb_add_no_panic enc_size Hb). Qed.
 
 (* ... so a block builder accepts EXACTLY the entries that are within the size limits, arrive
    before the table is full, and are above the last accepted entry (initially: above the least
    KeyRef (empty key, u64::MAX), which is therefore the one entry no builder can store) *)
-Theorem C10_block_builder_accepts_iff : forall enc_size,
-  (forall be, (enc_size be <= U32_MAX - TABLE_FULL_SIZE)%N) ->
-  forall b e,
-  (exists b1, bb_add enc_size b e = Ok b1) <->
-  put_ok (bb_last_key b) (bb_last_ts b) (bb_approx_size enc_size b) e.
+Theorem C10_block_builder_accepts_iff : forall enc_size, size_bounded enc_size ->
+  forall b e, (e_ts e <= U64_MAX)%N ->
+  ((exists b1, bb_add enc_size b e = Ok b1) <->
+   put_ok (bb_last_key b) (bb_last_ts b) (bb_approx_size enc_size b) e).
 Proof.
-  intros enc_size Hb b e. split.
+  intros enc_size Hb b e Hts. split.
   - intros (b1 & H). exact (bb_add_ok enc_size b e b1 H).
-  - intros Hp. destruct (bb_add enc_size b e) as [b1|x] eqn:A; [eauto|exfalso].
-    destruct Hp as (P1 & P2 & P3 & P4).
-    destruct (bb_add_err enc_size b e x A) as [(_&L)|[(_&v&Ev&L)|[(_&L)|[(_&L)|(->&_)]]]].
-    + apply N.lt_nge in L. contradiction.
-    + specialize (P2 v Ev). apply N.lt_nge in L. contradiction.
-    + apply N.lt_nge in P3. contradiction.
-    + contradiction.
-    + exact (bb_add_no_panic enc_size Hb b e A).
+  - exact (bb_add_total enc_size Hb b e Hts).
 Qed.
 
 (* ... and likewise an SstBuilder, in every state it can reach: put/del succeed EXACTLY on the
    entries that pass the pre-checks (block flushes, dividing keys, index puts never fail), so every
    rejection is a pre-check failure and leaves the builder and the file untouched.  Hypotheses
-   on the external sizes: a record is far smaller than 4 GiB - 1 GiB, an encoded BlockMetadata
-   fits a value. *)
+   on the external sizes: `size_bounded`, and an encoded BlockMetadata fits a value. *)
 Theorem C10_sst_builder_accepts_iff : forall enc_size meta_enc sip, size_ok enc_size ->
-  (forall be, (enc_size be <= U32_MAX - TABLE_FULL_SIZE)%N) ->
-  (forall s l, (len (meta_enc s l) <= MAX_VALUE_LEN)%N) ->
-  forall o es b, keys_ok es -> sb_add_all enc_size meta_enc sip (sb_new o) es = Ok b ->
-  forall e, bytes_ok (e_key e) ->
+  size_bounded enc_size -> (forall s l, (len (meta_enc s l) <= MAX_VALUE_LEN)%N) ->
+  forall o es b, keys_ok es -> ts_ok es -> sb_add_all enc_size meta_enc sip (sb_new o) es = Ok b ->
+  forall e, bytes_ok (e_key e) -> (e_ts e <= U64_MAX)%N ->
   ((exists b1, sb_add enc_size meta_enc sip b e = Ok b1) <->
    put_ok (sb_last_key b) (sb_last_ts b) (sb_approx_size enc_size b) e).
 Proof. exact sst_builder_accepts_iff. Qed.
@@ -201,11 +192,16 @@ Proof.
 Qed.
 
 (* the instance run by the correspondence check satisfies the hypotheses: the prototk record size
-   is positive and the prototk BlockMetadata codec round-trips on byte offsets that fit a u64 *)
+   is positive and bounded, the prototk BlockMetadata encoding is short and round-trips on byte
+   offsets that fit a u64 *)
 Theorem C10_real_instance_ok :
-  size_ok enc_size_real /\
+  size_ok enc_size_real /\ size_bounded enc_size_real /\
+  (forall s l, (len (meta_enc_real s l) <= MAX_VALUE_LEN)%N) /\
   (forall s l, (s < 2 ^ 64)%N -> (l < 2 ^ 64)%N -> meta_dec_real (meta_enc_real s l) = Some (s, l)).
-Proof. split; [exact enc_size_real_pos|exact meta_real_roundtrip]. Qed.
+Proof.
+  split; [exact enc_size_real_pos|]. split; [exact enc_size_real_bounded|].
+  split; [exact meta_enc_real_short|exact meta_real_roundtrip].
+Qed.
 
 (* ---- non-vacuity: a concrete size function, options and a non-trivial accepted sequence ---- *)
 Definition enc_size_example (be : bentry) : N := (3 + len (be_frag be))%N.
